@@ -154,6 +154,23 @@ def compute_impl(case, verbose=False, neighbours_obj=None):
         kw['neighbours'] = neighbours_obj or periodic_neighbours(per if len(per) != 1 or case.get('per_as_list') else per[0])
     elif case.get('adj', 'grid') == 'diag':
         kw['neighbours'] = diag_neighbours
+    if case.get('reuse'):
+        # objects reused across calls, as a long script would: the same criteria list object and the same
+        # neighbours object were first used for ANOTHER array (other shape) with stricter parameters.
+        # compute must not keep anything of that call in them.
+        lst = list(fs)
+        kw['is_independent'] = lst
+        other_shape = [s_ + 2 for s_ in case['shape']]
+        nn = 1
+        for s_ in other_shape:
+            nn *= s_
+        other = (np.arange(nn, dtype=float) * 7 % 11).reshape(other_shape)
+        kw0 = {'min_delta': kw['min_delta'] + 3, 'min_npix': case['minn'] + 2, 'is_independent': lst}
+        if case.get('periodic') and neighbours_obj is None:
+            kw0['neighbours'] = kw['neighbours']
+        with warnings.catch_warnings():
+            warnings.simplefilter('ignore')
+            Dendrogram.compute(other, **kw0)
     with warnings.catch_warnings():
         warnings.simplefilter('ignore')
         if verbose:
@@ -251,7 +268,9 @@ def observe(d, case):
     shape = tuple(case['shape'])
     obs = {'structs': {}}
     reach = reachable(d)
-    for s in reach:
+    # query order: parents first, or (reuse cases) deepest structures first -- cached answers of inner
+    # structures must not change what their ancestors report
+    for s in (list(reversed(reach)) if case.get('reuse') else reach):
         own = [flat(c, shape) for c in s._indices]
         tio = s.indices(subtree=False)
         tis = s.indices(subtree=True)
